@@ -1,7 +1,8 @@
 """C03 Incidence tables are exact transposes of one another"""
 PROPERTY = "C03"
 LEVEL = "proof"
-FUNCTIONS = []
+FUNCTIONS = ['uxarray.grid.connectivity._build_edge_face_connectivity',
+    'uxarray.grid.geometry._construct_hole_edge_indices']
 STANDINS = ["incidence"]
 ASSUMPTIONS = []
 EXPLANATION = "builders under contract + bounded stand-in"
